@@ -57,6 +57,10 @@ pub fn atoms(l: L, core_only: bool) -> Vec<(String, bool)> {
             ("\u{2028}".into(), false),
             ("\u{200b}".into(), false),
             ("\u{feff}".into(), false),
+            // capitals whose lower-case form has another UTF-8 length (2 -> 3 bytes, 3 -> 1, 2 -> 3 with a combining mark)
+            ("\u{23a}".into(), false),
+            ("\u{212a}".into(), false),
+            ("\u{130}".into(), false),
         ]);
         match l {
             L::En => v.push(("o".into(), true)),
